@@ -1,122 +1,13 @@
 /-
-  The MML reader after repository fix 1763cac ("a '%' platform command event carries its own
-  position"): `MML_Input::parse_mml_track` now does `unget(c); set_reference(get_reference()); get();`
-  before adding the `PLATFORM` event of a `%n` command.  Model/Mml (owned by C05) still has the
-  old branch (the event kept the previous command's reference, or none at the start of a track);
-  this file re-states `parse_mml_track` and the functions above it in the call chain
-  (`parse_mml`, `parse_line`, `read_line`, `parse_file`) VERBATIM from Model/Mml with that one
-  branch changed.  Everything else (commands, lexer, builder) is imported, not copied.
-  When the fix is merged, the `%` branch of `Ctrmml.Mml.parseMmlTrackF` takes the text below and
-  this file reduces to re-exports.
+  Historical note.  While repository fix 1763cac ("a '%' platform command event carries its own
+  position": `MML_Input::parse_mml_track` does `unget(c); set_reference(get_reference()); get();`
+  before adding the `PLATFORM` event of a `%n` command) was not yet merged into Model/Mml, this
+  file re-stated `parse_mml_track` and the functions above it in the call chain with that one
+  branch changed.  Model/Mml has taken the fixed branch since; the names below are now plain
+  re-exports of `Ctrmml.Mml` (kept so that `Ctrmml.MmlFix.readLines` etc. still resolve).
 -/
 import Ctrmml.Model.Mml
 namespace Ctrmml.MmlFix
-open Ctrmml.Tables Ctrmml.Lexer Ctrmml.TrackBuilder Ctrmml.Mml
-
-/-- `MML_Input::parse_mml_track()` on explicit fuel -/
-def parseMmlTrackF : Nat → P Unit
-  | 0 => fail (.foreign "MODEL:fuel")
-  | fuel + 1 => do
-    let c ← getTokenC
-    let s ← getS
-    if c == 124 then parseMmlTrackF fuel
-    else if c == 59 then pure ()
-    else if (c == 47 || c == 125) && s.conditionalBlock then do
-      conditionalBlockEnd c
-      parseMmlTrackF fuel
-    else if c == 123 && !s.conditionalBlock then do
-      conditionalBlockBegin
-      parseMmlTrackF fuel
-    else if c == 37 then do
-      -- fix 1763cac: `unget(c); set_reference(get_reference()); get();` before the event
-      ungetC c
-      let s ← getS
-      trackOp (.setReference (some s.inp.getReference))
-      let _ ← getC
-      trackOp (.addEvent ev_PLATFORM (← expectParameter) 0 0)
-      parseMmlTrackF fuel
-    else if c == 0 then pure ()
-    else do
-      ungetC c
-      let s ← getS
-      trackOp (.setReference (some s.inp.getReference))
-      if (← mmlBasic) == false then parseMmlTrackF fuel
-      else if (← mmlControl) == false then parseMmlTrackF fuel
-      else if (← mmlEnvelope) == false then parseMmlTrackF fuel
-      else parseError "unknown MML command"
-
-def trackFuel (s : MmlState) : Nat := s.inp.lb.buf.length + 2 - s.inp.lb.column
-
-/-- `MML_Input::parse_mml_track()` -/
-def parseMmlTrack : P Unit := do
-  let s ← getS
-  parseMmlTrackF (trackFuel s)
-
-/-- the body of the `for` loop of `parse_mml` for the tracks `l`, the first having index `i` -/
-def parseMmlLoop (col : Nat) : Nat → List Nat → P Unit
-  | _, [] => pure ()
-  | i, id :: rest => do
-    seekC col
-    modifyS fun s => { s with trackId := id, trackOffset := i % 65536, song := s.song.makeTrack id, conditionalBlock := false }
-    parseMmlTrack
-    if (← getS).conditionalBlock then parseError "unterminated conditional block"
-    parseMmlLoop col (i + 1) rest
-
-/-- `MML_Input::parse_mml()` -/
-def parseMml : P Unit := do
-  let col ← tellC
-  let s ← getS
-  parseMmlLoop col 0 s.trackList
-
-def runLastCmd : P Unit := do
-  match (← getS).lastCmd with
-  | .null => pure ()
-  | .parseMml => parseMml
-  | .parseTag => parseTag
-
-/-- `MML_Input::parse_line()` -/
-def parseLine : P Unit := do
-  let c ← getTrackId
-  let continue? : Bool ←
-    if c != -1 then do
-      let s ← getS
-      let l ← trackListLoop (s.inp.lb.buf.length + 2) c []
-      modifyS fun s => { s with trackList := l, lastCmd := .parseMml }
-      pure true
-    else do
-      let c ← getC
-      if c == 35 || c == 64 then do
-        let s ← getS
-        let b := s.inp.lb
-        let (key, n, e) := tagKeyScan c (b.buf.drop b.column)
-        modifyS fun s => { setLb s { b with column := b.column + n } with tagKey := key, lastCmd := .parseTag }
-        ungetC e
-        pure true
-      else if c == 59 then pure false
-      else if !isBlank c then do
-        if c != 0 then parseError "Expected track or tag identifier"
-        pure false
-      else do
-        ungetC c
-        pure true
-  if continue? then do
-    let c ← getC
-    if isBlank c then do
-      let c ← getTokenC
-      ungetC c
-      if c == 0 then pure ()
-      else runLastCmd
-
-/-- `Line_Input::read_line(text, line_number)` -/
-def readLine (text : List Nat) (lineNumber : Nat) : P Unit := do
-  modifyS fun s => { s with inp := s.inp.readLine text lineNumber }
-  parseLine
-
-/-- feed the lines of a file (`Line_Input::parse_file`): stops at the first exception -/
-def readLines : Nat → List (List Nat) → P Unit
-  | _, [] => pure ()
-  | n, l :: ls => do
-    readLine l n
-    readLines (n + 1) ls
-
+export Ctrmml.Mml (parseMmlTrackF trackFuel parseMmlTrack parseMmlLoop parseMml runLastCmd parseLine
+  readLine readLines)
 end Ctrmml.MmlFix
